@@ -2,7 +2,7 @@
 PROP = 'C05'
 LEAN_MODULES = ['FalconModel.FinalizeProofs', 'FalconModel.FinalizeProofs2', 'FalconModel.FinalizeTraceProofs',
                 'FalconModel.FinalizeWsgiProofs', 'FalconModel.FinalizeErrProofs', 'FalconModel.FinalizeSseProofs',
-                'FalconModel.FinalizeNoneProofs', 'FalconModel.FinalizeHistProofs']
+                'FalconModel.FinalizeNoneProofs', 'FalconModel.FinalizeHistProofs', 'FalconModel.FinalizeCloseProofs']
 DRIVERS = ['fzdriver', 'fztdriver', 'fz2driver']
 THEOREMS = [
     'Fz.wsgi_asgi_agree', 'Fz.bodiless_no_payload', 'Fz.content_length_exact',
@@ -31,6 +31,8 @@ THEOREMS = [
     # ASGI streams that hand out None (FinalizeNone.lean): the documented end-of-body marker of async iterators, a read() returning None
     'Fn.traceN_wellformed', 'Fn.traceN_closed_exactly_once', 'Fn.traceN_closes_zero_otherwise', 'Fn.asgiTraceN_iter', 'Fn.asgiTraceN_some',
     'Fn.traceN_iter_payload', 'Fn.loopIterN_cut', 'Fn.loopIterN_some', 'Fn.loopFileN_some', 'Fn.loopIterN_open', 'Fn.loopFileN_open', 'Fn.cutNone_some',
+    # close() itself fails (FinalizeClose.lean): one more fault input on top of Fn.asgiTraceN
+    'Fc.asgiTraceC_nofault', 'Fc.asgiTraceC_noclose', 'Fc.traceC_wellformed', 'Fc.traceC_closed_exactly_once', 'Fc.traceC_closes_zero_otherwise', 'Fc.traceC_close_fault',
     # histories on one response (FinalizeHist.lean): setters in any order, re-assignment, render_body() calls in between, the _media_rendered cache
     'Fh.history_wsgi', 'Fh.history_asgi', 'Fh.history_body_precedence', 'Fh.run_attrs', 'Fh.renderC_eq', 'Fh.renderC_fst', 'Fh.renderC_frame',
     'Fh.inv_run', 'Fh.inv_step', 'Fh.inv_init', 'Fh.wsgiH_eq', 'Fh.asgiH_eq', 'Fh.hasKey_setKey_self', 'Fh.hasKey_setKey_mono',
@@ -75,6 +77,10 @@ STATEMENTS = {
     'Fn.asgiTraceN_iter': 'for an async iterator / generator the None marker is exhaustion at that point: the exchange is exactly Fz.asgiTrace of the chunks handed out before the first None (the chunks behind it are never asked for), so all Fz theorems apply',
     'Fn.asgiTraceN_some': 'the event-level model of FinalizeTrace.lean is the special case in which the stream hands out byte strings only',
     'Fn.traceN_iter_payload': 'fault-free exchange of a None-terminated async iterator (non-HEAD, body-bearing, body from the stream): one body event with more_body per byte string before the marker, then the final empty body event, no exception',
+    'Fc.traceC_closed_exactly_once': 'ASGI: once streaming has begun close() is called exactly once also when that very call raises (or the task is cancelled inside it) - alone or while a stream / send failure of any class is already propagating (the streaming block is try/finally: to the model a failure has no class)',
+    'Fc.traceC_close_fault': 'a close() that raises always ends __call__ with an exception after exactly one call; the server has received the start event and body events with more_body true only (no final event)',
+    'Fc.traceC_wellformed': 'the framing statement of Fn.traceN_wellformed with the close() fault as one more input',
+    'Fc.asgiTraceC_nofault': 'without the close() fault the model is Fn.asgiTraceN (all Fn / Fz theorems apply)',
     'Fh.history_wsgi': 'for every history on a fresh response - assignments of text / data / media (values and None, any order, repeated), header assignments, render_body() calls that return or raise, in any interleaving - what falcon.App.__call__ hands to the server is Fz.wsgi of the response state the history left: the _media_rendered cache never changes the outcome, all Fz theorems (precedence, Content-Length, bodiless, Content-Type) hold judged on the values assigned last',
     'Fh.history_asgi': 'the same for falcon.asgi.App.__call__ (Fz.asgi)',
     'Fh.history_body_precedence': 'non-HEAD, body-bearing status: after any history the payload is the text assigned last if not None, else the data assigned last, else the serialised media assigned last, else what the stream delivers - whatever render_body() calls happened in between',
@@ -86,6 +92,7 @@ STATEMENTS = {
 TRUSTED = [
     'the WSGI server calls close() on the returned iterable and a server-supplied wsgi.file_wrapper iterates read(block) and forwards close() to its file (PEP 3333 duties; the monitor plays that server, the Lean model Wg.serve transcribes it; Wg.wsgi_file_wrapper_owns_close states what holds for a wrapper that does not forward close())',
     'asyncio.wait_for(app, 3 s, then 20 s) deciding "the ASGI application did not return"',
+    'the task-based ASGI driver (lib_http.drive_asgi_task): the application runs in its own task, the server side cancels it with task.cancel() from the event loop while the application waits on a future inside send() / a stream call / close()',
     'SSE: the moment at which the disconnect watcher task completes is an input of the model (the harness makes the client disconnect before a chosen event and yields to the event loop); the watcher task itself is not modelled (it is left pending when an exception ends the SSE loop - reported)',
     'the independent event-stream interpreter (HTML standard 9.2.6) used as the SSE oracle',
 ]
@@ -98,8 +105,20 @@ ASSUMPTIONS = [
     'histories: serialising a media value is a function of the value (and fails or not by the type the response has at that moment, decided by the harness from the documentation); an explicit Content-Type without a media handler is assigned before the body attributes (media rendered under one type and re-typed afterwards keeps its cached serialisation - not something the statement speaks about); header values are never deleted inside a history',
     'SSE: str attributes are well-formed Unicode (no lone surrogates); multi-line values are serialised as falcon does (not split, see Sse.sse_multiline_data_is_not_split) and excluded from the read-back oracle; retry is an int (not bool)',
     'F16 stays in the code: 204/304 + media + no explicit type is reported as KNOWN-FINDING, any other framework-supplied Content-Type on 204/304 is a violation',
+    'how streaming ends: KeyboardInterrupt / SystemExit themselves are represented by a server-defined BaseException subclass (asyncio re-raises the two real ones out of the event loop); what leaves the '
+    'application after an injected failure may be any of the injected classes (close() raising while another error propagates replaces it; the statement only fixes the close() count and the framing)',
 ]
-RULE = ('[two history-like dimensions added after seeds C05_4 / C05_6: (i) fill histories - with probability 0.35 the plan is filled in by a history on the one response object: each of text / data / media is assigned 0-3 times '
+RULE = ('[two dimensions added after seeds C05_7 / C05_8: (iii) HOW streaming ends - a dedicated run over streamed plans (file-like and iterator stream objects, with and without close(), '
+        'None marker or exhaustion): the stream\'s failing call at every position (first call ... the call after the last item), the server\'s send at every index and close() itself each raise an '
+        'Exception subclass or one of the BaseException-only classes asyncio.CancelledError, GeneratorExit, a server-defined BaseException (what `except Exception` does not see); the ASGI application runs '
+        'in a task of its own that the server really cancels (task.cancel() from the event loop) while the application is suspended in every stream call, in every send and in close(); close() raising '
+        'alone and while a stream / send failure is already propagating; WSGI gets the stream-call and close() variants (the PEP 3333 server owes close() whatever the class); close() exactly once '
+        'is judged by the oracle in every run and the event list + close count go to the trace model (to which "raises" has no class: `finally`); '
+        '(iv) the stream OBJECT - with probability 0.45 a class-based stream object has a truth value of its own: __len__ 0 / positive, __bool__ False, a truth value that changes after the first '
+        'look (true-then-false, false-then-true); with probability 0.3 it is handed over with resp.set_stream(stream, content_length) (the real length, sometimes another one); a new oracle '
+        '"stream-content-length": the Content-Length of a streamed response is the one the application declared or absent - never one the framework made up; the remaining truthiness test in the HEAD branch of the ASGI app - '
+        'Content-Length: 0 for HEAD with a falsy stream object, unlike WSGI - was found by the Fz correspondence with these objects and repaired in /repo a19fe30] '
+        '[two history-like dimensions added after seeds C05_4 / C05_6: (i) fill histories - with probability 0.35 the plan is filled in by a history on the one response object: each of text / data / media is assigned 0-3 times '
         '(other values of its pool and None first, the plan\'s value last); either the three sequences are interleaved in a random order and 1-3 calls of the public render_body() are inserted at random positions, '
         'or the attributes are filled in one after the other in one of the 6 orders with a call after each block (every ordered pair "a call sees source X, source Y is assigned afterwards" occurs) '
         '(a failing one is survived, as a logging hook would); the header block runs before or after the history; the oracles judge the values assigned last; '
@@ -286,7 +305,9 @@ def run(ctx):
             sess_t.op(R.fzt_line(p, snap, send_fail_at), R.fzt_show(rec['sent'], probe.closed if probe else 0, rec['app_exc'] is not None))
 
     # ------------------------------------------------------------------ one run on one stack
-    def go_wsgi(p, abandon_after=None):
+    BASE_ONLY = (asyncio.CancelledError, GeneratorExit, R.ServerStop)
+
+    def go_wsgi(p, abandon_after=None, base_ok=False):
         errs = io.StringIO()
 
         def once():
@@ -294,7 +315,7 @@ def run(ctx):
             errs.seek(0); errs.truncate()
             w = H.Wire(method=p['method'], target='/', headers=[('Host', 'localhost')])
             env = H.wsgi_environ(w, file_wrapper=CountingFW if p['fw'] else None, errors=errs)
-            return H.drive_wsgi(get_app(False, p), env, abandon_after=abandon_after)
+            return H.drive_wsgi(get_app(False, p), env, abandon_after=abandon_after, catch=BASE_ONLY if base_ok else None)
         rec, hung = H.guarded(once)
         if hung:
             rec = {}
@@ -307,6 +328,17 @@ def run(ctx):
             CUR.update(plan=p, snap={}, probe=None)
             w = H.Wire(method=p['method'], target='/', headers=[('Host', 'localhost')])
             rec = loop.run_until_complete(H.drive_asgi(get_app(True, p), H.asgi_scope(w), H.asgi_events(b''), send_fail_at=send_fail_at, timeout=timeout))
+            if not rec['hang']:
+                break
+        return rec, CUR['probe'], CUR['snap']
+
+    def go_asgi_task(p, send_fail_at=None, send_class=None, cancel_at_send=None):
+        """the application in a task of its own: send() may raise any class, the server may cancel the task (H.drive_asgi_task)"""
+        for timeout in (3.0, 20.0):
+            CUR.update(plan=p, snap={}, probe=None)
+            w = H.Wire(method=p['method'], target='/', headers=[('Host', 'localhost')])
+            rec = loop.run_until_complete(H.drive_asgi_task(get_app(True, p), H.asgi_scope(w), H.asgi_events(b''), send_fail_at=send_fail_at,
+                                                            send_exc=R.fault_class(send_class or 'oserror'), cancel_at_send=cancel_at_send, timeout=timeout))
             if not rec['hang']:
                 break
         return rec, CUR['probe'], CUR['snap']
@@ -335,6 +367,12 @@ def run(ctx):
         fs = final_state(R, p, asgi)
         sse = asgi and p['sse'] is not None and not (p['raise'] and not p['raise_after_fill'])
         sfail = p['stream']['fail'] if p['stream'] else None
+        # what this run injects, and so what may leave the application: the class the stream's failing call raises, the class
+        # close() raises, the class the server's send raises, a cancellation of the application's task by the server
+        sf_cls = R.fault_class(p['stream'].get('fail_class')) if p['stream'] else R.StreamFault
+        close_cls = R.fault_class(p['stream']['close_class']) if p['stream'] and p['stream'].get('close_class') else None
+        send_cls = R.fault_class(fault.get('send_class') or 'oserror')
+        cancelling = fault.get('cancel_at_send') is not None or (asgi and p['stream'] is not None and p['stream'].get('cancel_at') is not None)
 
         # --- protocol monitors
         if not asgi:
@@ -345,8 +383,10 @@ def run(ctx):
             mon = H.pep3333_monitor(rec)
             if rec['app_exc'] is not None:
                 mon.append(f'the application raised {type(rec["app_exc"]).__name__} instead of responding')
-            if rec['iter_exc'] is not None and not (isinstance(rec['iter_exc'], R.StreamFault) and sfail is not None):
+            if rec['iter_exc'] is not None and not (isinstance(rec['iter_exc'], sf_cls) and sfail is not None):
                 mon.append(f'iterating the body raised {type(rec["iter_exc"]).__name__}')
+            if rec.get('close_exc') is not None and not (close_cls is not None and isinstance(rec['close_exc'], close_cls)):
+                mon.append(f'close() of the returned iterable raised {type(rec["close_exc"]).__name__}')
             ctx.oracle('pep3333', not mon, '; '.join(mon) or None, case)
             if mon or not rec['start']:
                 return
@@ -362,7 +402,8 @@ def run(ctx):
                 hangs[0] += 1
             ex = rec['app_exc']
             if ex is not None:
-                allowed = (isinstance(ex, R.StreamFault) and sfail is not None) or (isinstance(ex, OSError) and rec['send_failed'] and not isinstance(ex, R.StreamFault))
+                allowed = (isinstance(ex, sf_cls) and sfail is not None) or (isinstance(ex, send_cls) and rec['send_failed'] and type(ex) is not R.StreamFault) \
+                    or (close_cls is not None and isinstance(ex, close_cls)) or (cancelling and isinstance(ex, asyncio.CancelledError))
                 if sse and not allowed:
                     # an emitter that raises / an event that cannot be written (data not UTF-8, json not serialisable) is the
                     # application's fault, like a failing stream: the exchange is cut short
@@ -406,6 +447,15 @@ def run(ctx):
             cls = [v for k, v in headers if k == 'content-length']
             ok = cls == [str(len(body))]
             ctx.oracle('content-length', ok, None if ok else f'Content-Length {cls} but {len(body)} body bytes were sent', case)
+
+        # --- a streamed body: the framework does not know its length, so a Content-Length - if any - is the one the application
+        #     declared (resp.content_length / set_stream); in particular never "0" in front of body bytes
+        if not bodiless_obs and streamed and not sse and not p['raise'] and fs['src'] == 'stream':
+            cls = [v for k, v in headers if k == 'content-length']
+            want = R.declared_content_length(p)
+            ok = cls == ([] if want is None else [want])
+            ctx.oracle('stream-content-length', ok, None if ok else
+                       f'streamed response: Content-Length {cls}, the application declared {want!r}; {len(body)} body bytes were sent', case)
 
         # --- precedence text > data > media > stream
         if not bodiless_obs and not p['raise'] and not fs['render_fails'] and not sse:
@@ -1072,6 +1122,8 @@ def run(ctx):
         """The evidence table of the two history-like dimensions: how the stream ends, and assignment / render histories."""
         st = p['stream']
         if st is not None:
+            ctx.count('stream_object_truth_' + str(st.get('truth')))
+            ctx.count('stream_object_handed_over_by_' + ('set_stream' if st.get('declared') is not None else 'assignment'))
             na = st.get('none_at')
             what = 'exhaustion' if na is None else 'None_after_last_chunk' if na == len(st['chunks']) else 'None_early'
             ctx.count('asgi_stream_end_' + ('file_' if st['kind'].startswith('file') else 'iter_') + what)
@@ -1093,8 +1145,95 @@ def run(ctx):
                     ctx.count(f'fill_history_assign_{op[0]}{"_None" if op[1] is None else ""}_after_render_of_{seen_render_of}')
                 cur[op[0]] = op[1]
 
+    # ------------------------------------------------------------------ HOW streaming ends (after seed C05_7)
+    SEND_CLASSES = ['oserror', 'cancelled', 'generator_exit', 'base']
+
+    def gen_streamed(rnd):
+        """a plan whose body is taken from a stream object with (mostly) a close() method"""
+        p = R.gen_plan(rnd, sse_ok=False, errors_ok=False, none_ok=True, obj_ok=True)
+        p.update(text=None, data=None, media=None, resp_class=rnd.choice(['std', 'std', 'sub']), extra_set_cookie=False)
+        if rnd.random() < 0.85:
+            p['method'] = rnd.choice(['GET', 'GET', 'POST', 'PUT'])
+        if rnd.random() < 0.85:
+            p.update(rnd.choice([dict(status_form='int', status=200, code=200), dict(status_form='int', status=404, code=404),
+                                 dict(status_form='line', status='200 OK', code=200), dict(status_form='enum', status=201, code=201)]))
+        kind = rnd.choice(['file', 'file', 'file', 'iter', 'iter', 'iter', 'file-noclose', 'iter-noclose'])
+        ch = [rnd.choice(R.CHUNKS) for _ in range(rnd.randint(0, 4))]
+        st = {'kind': kind, 'chunks': ch, 'fail': None, 'none_at': rnd.choice([None, None, None, len(ch)])}
+        if p['stream'] is not None:
+            st.update({k: v for k, v in p['stream'].items() if k in ('truth', 'declared')})
+            if st.get('declared') is not None:
+                st['declared'] = R.declared_length(st)
+        p['stream'] = st
+        p.pop('hist', None)
+        return p
+
+    def endings_run(n):
+        """Every way streaming can end x every position: the stream's failing call / the server's send / close() itself raise an
+        Exception subclass or a BaseException-only class (asyncio.CancelledError, GeneratorExit, a server's own BaseException), or the
+        server cancels the application's task while it is suspended in a stream call, in a send or in close().  Both stacks where it
+        has a meaning (WSGI: the stream's failing call and close(); the PEP 3333 server owes close() whatever the class)."""
+        def variant(p, **kw):
+            q = copy.deepcopy(p)
+            q['stream'].update(kw)
+            return q
+
+        def one_asgi(q, model_plan, tag, xf=None, send_class=None, cancel_at_send=None, cf=False):
+            rec, probe, snap = go_asgi_task(q, send_fail_at=xf, send_class=send_class, cancel_at_send=cancel_at_send)
+            fault = {'send_fail_at': xf, 'send_class': send_class, 'cancel_at_send': cancel_at_send, 'ending': tag}
+            judge('asgi', q, rec, probe, fault)
+            if model_plan is not None:
+                # to the model "raises" has no class (`finally`): the same line as for an Exception at that position
+                mxf = xf if xf is not None else cancel_at_send
+                if R.in_model(model_plan) and 'hdr' in snap and not rec['hang']:
+                    sess_t.case({'plan': q, 'fault': fault})
+                    # cf=1: close() itself fails when it is called (Fc.asgiTraceC)
+                    sess_t.op(R.fzt_line(model_plan, snap, mxf) + (' cf=1' if cf else ''), R.fzt_show(rec['sent'], probe.closed if probe else 0, rec['app_exc'] is not None))
+            ctx.seen(('ending-a', json.dumps(q, sort_keys=True, default=repr), tag, xf, send_class, cancel_at_send), True)
+            ctx.count('ending_asgi_' + tag)
+            return rec
+
+        def one_wsgi(q, model_plan, tag):
+            rec, probe, snap = go_wsgi(q, base_ok=True)
+            judge('wsgi', q, rec, probe, {'ending': tag})
+            if model_plan is not None:
+                wsgi_case(model_plan, rec, probe, snap, None)
+            ctx.seen(('ending-w', json.dumps(q, sort_keys=True, default=repr), tag), True)
+            ctx.count('ending_wsgi_' + tag)
+
+        for _ in range(n):
+            p = gen_streamed(rnd)
+            ncalls = len(R.stream_items(p, True)) + 1          # the call after the last item included
+            rec0 = one_asgi(p, p, 'completes')
+            one_wsgi(p, p, 'completes')
+            nsend = len(rec0['attempts'])
+            # the stream's failing call, every position x every class
+            for k in range(ncalls + 1):
+                for cls in R.FAULT_CLASSES:
+                    q = variant(p, fail=k, fail_class=cls)
+                    one_asgi(q, variant(p, fail=k), 'stream_raises_' + cls)
+                    if k <= len(p['stream']['chunks']) + 1:
+                        one_wsgi(q, variant(p, fail=k), 'stream_raises_' + cls)
+                # the server cancels the application's task while it is suspended in that stream call
+                one_asgi(variant(p, cancel_at=['call', k]), variant(p, fail=k), 'task_cancelled_in_stream_call')
+            # the server's send, every index x every class; the task cancelled while suspended in that send
+            for k in range(nsend + 1):
+                for cls in SEND_CLASSES:
+                    one_asgi(p, p, 'send_raises_' + cls, xf=k, send_class=cls)
+                one_asgi(p, p, 'task_cancelled_in_send', cancel_at_send=k)
+            # close() itself: raises (alone, and while another failure is already propagating), or is where the task is cancelled
+            for cls in R.FAULT_CLASSES:
+                q = variant(p, close_class=cls)
+                one_asgi(q, p, 'close_raises_' + cls, cf=True)
+                one_wsgi(q, None, 'close_raises_' + cls)
+                k = rnd.randint(0, ncalls)
+                one_asgi(variant(q, fail=k, fail_class=rnd.choice(R.FAULT_CLASSES)), variant(p, fail=k), 'close_raises_after_stream_fault', cf=True)
+                one_asgi(q, p, 'close_raises_after_send_fault', xf=rnd.randint(0, nsend), send_class=rnd.choice(SEND_CLASSES), cf=True)
+            one_asgi(variant(p, cancel_at=['close']), p, 'task_cancelled_in_close', cf=True)
+
     def extra_runs():
         status_run()
+        endings_run(ctx.n(160, 3000))
         rerr_run(ctx.n(3000, 40000))
         ser_run(ctx.n(8000, 100000))
         sse_run(ctx.n(800, 10000))
@@ -1103,7 +1242,7 @@ def run(ctx):
         if hangs[0] >= 2:
             ctx.notes.append(f'shard {ctx.shard[0]}: stopped after case {ci}: the application repeatedly did not return (reported as oracle failures)')
             break
-        p = R.gen_plan(rnd, hist_ok=True, none_ok=True)
+        p = R.gen_plan(rnd, hist_ok=True, none_ok=True, obj_ok=True)
         fs = final_state(R, p, False)
         wrec, arec = both(p)
         count_dims(p)
@@ -1159,6 +1298,8 @@ LEVEL_TEXT = ('Machine-checked theorems (Lean 4) over models of the tails of fal
               'chunks = the body of the finalization model, close()-exactly-once as an invariant of the server loop; the render-error path (render, error handler, render again, empty body) reduced to the ordinary finalization on both stacks; '
               'SSE framing under emitter, serialisation, send and disconnect faults, and SSEvent.serialize read back field by field; '
               'ASGI streams whose hand-out sequence contains None (the documented end marker of async iterators = exhaustion at that point; a read() returning None), with framing and close()-once for every such sequence; '
+              'the same emission with close() itself failing (one more fault input: exactly one call, an exception always leaves, no final event) - streaming is ended by Exception subclasses and BaseException-only classes alike, '
+              'including real cancellation of the application\'s task at every await of the streaming block; '
               'histories on one response (setters in any order, re-assignment, None, render_body() calls in between, the _media_rendered cache and its invariant): the finalization after any history is the one of the values assigned last. '
               'Every model is tied to the real apps on every run by a differential correspondence (exact status line / status, header list in order, chunk or event list, close() counts, exception propagation); '
               'independent protocol monitors written from PEP 3333, the ASGI HTTP spec and the event-stream format plus statement oracles decide failing inputs, with fault injection at every stream-call, '
